@@ -46,11 +46,18 @@ impl Sm2PublicKey {
         compressed: bool,
         model: Sm2Model,
     ) -> Sm2Result<Vec<u8>> {
-        let cipher = self.encrypt(msg, compressed, model).unwrap();
-        let x = BigUint::from_bytes_be(&cipher[0..32]);
-        let y = BigUint::from_bytes_be(&cipher[32..64]);
-        let sm3 = &cipher[64..96];
-        let secret = &cipher[96..];
+        let c1c3c2 = matches!(model, Sm2Model::C1C3C2);
+        let cipher = self.encrypt(msg, compressed, model)?;
+        // C1 (33 or 65 bytes) is followed by C3 || C2 or by C2 || C3
+        let c1_len = if compressed { 33 } else { 65 };
+        let c1 = Point::from_byte(&cipher[0..c1_len])?.to_byte_be(false);
+        let x = BigUint::from_bytes_be(&c1[1..33]);
+        let y = BigUint::from_bytes_be(&c1[33..65]);
+        let (sm3, secret) = if c1c3c2 {
+            (&cipher[c1_len..c1_len + 32], &cipher[c1_len + 32..])
+        } else {
+            (&cipher[cipher.len() - 32..], &cipher[c1_len..cipher.len() - 32])
+        };
         Ok(yasna::construct_der(|writer| {
             writer.write_sequence(|writer| {
                 writer.next().write_biguint(&x);
@@ -265,14 +272,35 @@ impl Sm2PrivateKey {
                 return Ok((x, y, sm3, secret));
             })
         })
-        .unwrap();
+        .map_err(|_| Sm2Error::InvalidDer)?;
         let x = BigUint::to_bytes_be(&x);
         let y = BigUint::to_bytes_be(&y);
+        if x.len() > 32 || y.len() > 32 || sm3.len() != 32 {
+            return Err(Sm2Error::InvalidDer);
+        }
+        // rebuild C1 || C3 || C2 resp. C1 || C2 || C3 with the coordinates padded to 32 bytes
         let mut cipher: Vec<u8> = vec![];
-        cipher.extend_from_slice(&x);
-        cipher.extend_from_slice(&y);
-        cipher.extend_from_slice(&sm3);
-        cipher.extend_from_slice(&secret);
+        if compressed {
+            cipher.push(0x02 | (y.last().copied().unwrap_or(0) & 0x01));
+            cipher.extend_from_slice(&vec![0u8; 32 - x.len()]);
+            cipher.extend_from_slice(&x);
+        } else {
+            cipher.push(0x04);
+            cipher.extend_from_slice(&vec![0u8; 32 - x.len()]);
+            cipher.extend_from_slice(&x);
+            cipher.extend_from_slice(&vec![0u8; 32 - y.len()]);
+            cipher.extend_from_slice(&y);
+        }
+        match model {
+            Sm2Model::C1C3C2 => {
+                cipher.extend_from_slice(&sm3);
+                cipher.extend_from_slice(&secret);
+            }
+            Sm2Model::C1C2C3 => {
+                cipher.extend_from_slice(&secret);
+                cipher.extend_from_slice(&sm3);
+            }
+        }
         self.decrypt(&cipher, compressed, model)
     }
 
